@@ -271,6 +271,37 @@ func c02Run(c *fw.Ctx, b fw.Batch) {
 			lim := []uint32{0, 3072, uint32(len(d)), uint32(1 + r.Intn(len(d)+1))}[r.Intn(4)]
 			c02Judge(c, c02Case{Kind: kind, In: d, Limit: lim, Entry: entries[r.Intn(len(entries))]})
 		}
+	case "registry":
+		// Detection results are clones of the registered formats, so a format the library
+		// registers under a name that does not parse, carries a parameter, or is not the
+		// parsed form of itself is returned as it stands for whatever input it accepts.
+		// Invariant of the live tree (snapshot hook), plus every source literal as an input.
+		t := baseTree()
+		for _, n := range t.Nodes {
+			c.Eval(1)
+			c.Count("registered_formats_inspected", 1)
+			mt, params, err := mime.ParseMediaType(n.MIME)
+			why := ""
+			switch {
+			case err != nil:
+				why = fmt.Sprintf("registered name %q is not accepted by mime.ParseMediaType (%v)", n.MIME, err)
+			case len(params) > 0:
+				why = fmt.Sprintf("registered name %q carries the parameter(s) %v; every result of this format has a parameter other than charset", n.MIME, params)
+			case n.Parent < 0 && mt != "application/octet-stream":
+				why = fmt.Sprintf("the root of the tree is %q, not application/octet-stream", n.MIME)
+			}
+			if why != "" {
+				c.Violate("invalid-result", "registered format "+n.MIME+"|"+n.Ext, why+" (invariant of the registered tree: detection returns clones of these nodes)", c02Case{Kind: "registry", In: []byte(n.MIME), Entry: "registry"})
+			}
+			c.Distinct("registry|" + lib.Base(n.MIME))
+		}
+		for _, lit := range lib.SourceDictionary() {
+			if len(lit) == 0 || len(lit) > 200 {
+				continue
+			}
+			c02Judge(c, c02Case{Kind: "dictionary", In: lit, Limit: 0, Entry: "Detect"})
+			c02Judge(c, c02Case{Kind: "dictionary", In: append(append([]byte{}, lit...), make([]byte, 600)...), Limit: 3072, Entry: "DetectReader"})
+		}
 	case "errors":
 		seeds := lib.Seeds()
 		for i := 0; i < b.N; i++ {
@@ -426,7 +457,7 @@ func init() {
 	fw.Register(&fw.Prop{
 		ID:    "C02",
 		Level: "exploration",
-		Rule: "labels = every single byte 0x09-0xFF (bare and embedded), pairs and runs over a hostile alphabet (quotes, ; , = \\ / ( ) < > @ : [ ] ? { } % * ', space, TAB, CR, LF, FF, DEL, invalid UTF-8, non-ASCII, character references), empty and very long labels, spliced into 9 declaration syntaxes (meta charset unquoted/quoted, http-equiv pragmas, XML prologues, BOM + meta); entry points Detect, DetectReader (plain reader, reader implementing a working or failing io.Seeker), DetectFile; injected read errors at every offset class; missing file and directory; DetectFile while strace injects EIO into close(2) or into the k-th read(2) of the file (real kernel-level faults); trees enlarged by 1-3 levels of extensions below the deepest built-in formats; plus the invariant over all seeds at every prefix length, seed mutants, generated JSON / HTML / XML / CSV / text. Every returned (value, error) is judged by the invariant: String() parses, type registered, only charset on text/plain|html|xml, finite parameter-free registered ancestors ending at application/octet-stream, error => exactly application/octet-stream. " +
+		Rule: "labels = every single byte 0x09-0xFF (bare and embedded), pairs and runs over a hostile alphabet (quotes, ; , = \\ / ( ) < > @ : [ ] ? { } % * ', space, TAB, CR, LF, FF, DEL, invalid UTF-8, non-ASCII, character references), empty and very long labels, spliced into 9 declaration syntaxes (meta charset unquoted/quoted, http-equiv pragmas, XML prologues, BOM + meta); entry points Detect, DetectReader (plain reader, reader implementing a working or failing io.Seeker), DetectFile; injected read errors at every offset class; missing file and directory; DetectFile while strace injects EIO into close(2) or into the k-th read(2) of the file (real kernel-level faults); trees enlarged by 1-3 levels of extensions below the deepest built-in formats; the registered tree itself (every built-in format's name must parse, carry no parameter; the root is application/octet-stream: results are clones of these nodes) and every literal of the tree's source as an input; plus the invariant over all seeds at every prefix length, seed mutants, generated JSON / HTML / XML / CSV / text. Every returned (value, error) is judged by the invariant: String() parses, type registered, only charset on text/plain|html|xml, finite parameter-free registered ancestors ending at application/octet-stream, error => exactly application/octet-stream. " +
 			"non-trivial = the result carries a charset parameter that needed quoting or RFC 2231 encoding, or came with an error; distinct = distinct (bare type, quoted/rfc2231, byte-class signature of the parsed charset, syntax) and (entry, fail offset class).",
 		Assumptions: []string{
 			"mime.ParseMediaType is the definition of a valid media type string",
@@ -440,6 +471,7 @@ func init() {
 			var bs []fw.Batch
 			bs = append(bs, batches("labels", 8, nl, 1800)...)
 			bs = append(bs, batches("errors", 2, ne, 1800)...)
+			bs = append(bs, batches("registry", 1, 0, 1800)...)
 			bs = append(bs, batches("broad", 6, nb, 1800)...)
 			bs = append(bs, batches("extended", 1, 200, 1800)...)
 			// kernel-level faults on DetectFile: strace injects EIO into close(2) / the k-th read(2) of one file
@@ -462,6 +494,10 @@ func init() {
 			var k c02Case
 			if err := stdjson.Unmarshal(payload, &k); err != nil {
 				fmt.Println("bad payload:", err)
+				return
+			}
+			if k.Entry == "registry" {
+				c02Run(c, fw.Batch{Kind: "registry"})
 				return
 			}
 			c02Judge(c, k)
